@@ -58,13 +58,14 @@ def run_property(prop: str, tier: str = 'quick', replay: Optional[str] = None) -
         for r in results:
             r.controls = [c for c in control_report if c['rule'] == r.rule]
         bad = [c for c in control_report if c['status'] == 'wrong']
-        if bad:
+        fs = findings_for(results, prop)
+        known, new, keys = split_known(fs, prop)
+        if bad and not new:
+            # (a wrong control never masks a violation: those are reported below and decide the exit status)
             for c in bad:
                 print('ANALYSIS-ERROR control %s/%s: expected %s, rule %s' % (
                     c['rule'], c['name'], c['expect'], c['got']))
             return 2
-        fs = findings_for(results, prop)
-        known, new, keys = split_known(fs, prop)
         extra = {}
         try:
             cg = ctx._tc[1] if ctx._tc is not None else None
